@@ -400,7 +400,7 @@ func (p *packerMP) add(path *Path) {
 
 func createMPReachMessage(path *Path, nlris []bgp.PathNLRI) *bgp.BGPMessage {
 	if len(nlris) == 0 {
-		nlris = []bgp.PathNLRI{{NLRI: path.GetNlri(), ID: path.localID}}
+		nlris = []bgp.PathNLRI{{NLRI: path.GetNlri(), ID: path.LocalID()}}
 	}
 	oattrs := path.GetPathAttrs()
 	attrs := make([]bgp.PathAttributeInterface, 0, len(oattrs)+1)
@@ -444,7 +444,7 @@ func (p *packerMP) pack(options ...*bgp.MarshallingOption) []*bgp.BGPMessage {
 		budget := maxUpdateMessageLength(options) - baseLen
 		if budget <= 0 {
 			for _, path := range paths {
-				cb([]bgp.PathNLRI{{NLRI: path.GetNlri(), ID: path.localID}})
+				cb([]bgp.PathNLRI{{NLRI: path.GetNlri(), ID: path.LocalID()}})
 			}
 			return
 		}
@@ -459,7 +459,7 @@ func (p *packerMP) pack(options ...*bgp.MarshallingOption) []*bgp.BGPMessage {
 					break
 				}
 				used += nlriLen
-				nlris = append(nlris, bgp.PathNLRI{NLRI: paths[i].GetNlri(), ID: paths[i].localID})
+				nlris = append(nlris, bgp.PathNLRI{NLRI: paths[i].GetNlri(), ID: paths[i].LocalID()})
 				i++
 				if used >= budget {
 					break
@@ -467,7 +467,7 @@ func (p *packerMP) pack(options ...*bgp.MarshallingOption) []*bgp.BGPMessage {
 			}
 
 			if i == 0 {
-				nlris = append(nlris, bgp.PathNLRI{NLRI: paths[0].GetNlri(), ID: paths[0].localID})
+				nlris = append(nlris, bgp.PathNLRI{NLRI: paths[0].GetNlri(), ID: paths[0].LocalID()})
 				i = 1
 			}
 
@@ -538,7 +538,7 @@ func (p *packerMP) pack(options ...*bgp.MarshallingOption) []*bgp.BGPMessage {
 
 			baseReachLen := 19 + 2 + 2 + attrsLen
 			nexthops, _ := getMPReachNexthops(paths[0])
-			sampleNLRI := bgp.PathNLRI{NLRI: paths[0].GetNlri(), ID: paths[0].localID}
+			sampleNLRI := bgp.PathNLRI{NLRI: paths[0].GetNlri(), ID: paths[0].LocalID()}
 			if sampleReach, err := bgp.NewPathAttributeMpReachNLRI(paths[0].GetFamily(), []bgp.PathNLRI{sampleNLRI}, nexthops...); err == nil {
 				baseReachLen += sampleReach.Len() + 1 - paths[0].GetNlri().Len(options...) // +1 for extended-length attr header
 			} else {
@@ -624,7 +624,7 @@ func (p *packerV4) pack(options ...*bgp.MarshallingOption) []*bgp.BGPMessage {
 		nlris := make([]bgp.PathNLRI, 0, max)
 		i := 0
 		for ; i < max; i++ {
-			nlris = append(nlris, bgp.PathNLRI{NLRI: paths[i].GetNlri().(*bgp.IPAddrPrefix), ID: paths[i].localID})
+			nlris = append(nlris, bgp.PathNLRI{NLRI: paths[i].GetNlri().(*bgp.IPAddrPrefix), ID: paths[i].LocalID()})
 		}
 		return nlris, paths[i:]
 	}
